@@ -41,6 +41,10 @@ let () =
   let pw : wcall list ref = ref [] in
   let pr : rcall list ref = ref [] in
   let loaded = ref false in
+  (* the sequential prologue is pure model computation: states after identical (open, pre ...) prefixes are shared
+     between consecutive cases (the enumerated schedules of one call mix have the same prologue) *)
+  let prekey = ref "" in
+  let cache : (string * (state * string)) list ref = ref [] in
   let out = Buffer.create (1 lsl 20) in
   let pr_line s = Buffer.add_string out s; Buffer.add_char out '\n' in
   let parse_rcall (ws : string list) (pre : bool) : rcall option = match ws with
@@ -69,27 +73,35 @@ let () =
      while true do
        let line = input_line stdin in
        match split_ws line with
-       | "#" :: _ -> st := None; pw := []; pr := []; loaded := false; pr_line line
+       | "#" :: _ -> st := None; pw := []; pr := []; loaded := false; prekey := ""; pr_line line
        | ["open"; s; ns; _] ->
          let h = open_shared (z_of_string s) (ns <> "0") in
+         prekey := Digest.string ("open " ^ s ^ " " ^ ns);
          st := Some (init h [] []);
          pr_line (Printf.sprintf "open 0 %s" (zs (hW h)))
        | "pre" :: kind :: rest ->
          (match !st with
           | None -> ()
           | Some s ->
-            let (t, s0) =
-              if kind = "w" then (TW, load s [wwrite (bytes_of_hex (match rest with h :: _ -> h | [] -> "-"))] [])
-              else (TR, load s [] (match parse_rcall rest true with Some c -> [c] | None -> [])) in
-            let cur = ref s0 and res = ref None and fuel = ref 100000 in
-            while !res = None && !fuel > 0 do
-              decr fuel;
-              (match step t !cur with
-               | Some (s1, (_, r)) -> cur := s1; res := r
-               | None -> fuel := 0)
-            done;
-            st := Some !cur;
-            (match !res with Some r -> pr_line ("pre " ^ ret_str r) | None -> pr_line "pre <no return in the model>"))
+            prekey := Digest.string (!prekey ^ line);
+            (match List.assoc_opt !prekey !cache with
+             | Some (s1, outl) -> st := Some s1; pr_line outl
+             | None ->
+               let (t, s0) =
+                 if kind = "w" then (TW, load s [wwrite (bytes_of_hex (match rest with h :: _ -> h | [] -> "-"))] [])
+                 else (TR, load s [] (match parse_rcall rest true with Some c -> [c] | None -> [])) in
+               let cur = ref s0 and res = ref None and fuel = ref 100000 in
+               while !res = None && !fuel > 0 do
+                 decr fuel;
+                 (match step t !cur with
+                  | Some (s1, (_, r)) -> cur := s1; res := r
+                  | None -> fuel := 0)
+               done;
+               st := Some !cur;
+               let outl = (match !res with Some r -> "pre " ^ ret_str r | None -> "pre <no return in the model>") in
+               pr_line outl;
+               let rec take n l = if n <= 0 then [] else match l with [] -> [] | x :: t -> x :: take (n - 1) t in
+               cache := (!prekey, (!cur, outl)) :: take 11 !cache))
        | "drain" :: _ ->
          (match !st with
           | None -> ()
